@@ -264,6 +264,12 @@ func (p *Proxy) handleLoop(conn net.Conn) {
 			log.Debugf("martian: closing connection: %v", conn.RemoteAddr())
 			return
 		}
+		if s.Hijacked() {
+			// The connection belongs to whoever hijacked it: do not read another request
+			// from it. It is closed now that the hijacking modifier has returned.
+			log.Debugf("martian: connection was hijacked, done with it: %v", conn.RemoteAddr())
+			return
+		}
 	}
 }
 
